@@ -47,6 +47,7 @@ type Knobs struct {
 	PNegBal    int  // chance that a balance is negative
 	POrigin    int  // chance that a variable gets a meta()/balance()/overdraft() origin
 	SameAsset  bool // every statement uses the first asset
+	EvenAssets bool // all assets equally likely (default: the first one is favoured)
 	// PWorldFallback: chance that the source of a fixed send is wrapped as { S @world } so
 	// that the statement cannot run out of funds
 	PWorldFallback int
@@ -59,6 +60,12 @@ type Knobs struct {
 	NoBalanceOrigins bool
 	// OverdraftFlag: the overdraft() function may be used (the case carries the feature flag)
 	OverdraftFlag bool
+	// PReuse: chance that a value is written through an already declared variable of the
+	// same type (and, for accounts / assets, the same value) instead of a fresh spelling
+	PReuse int
+	// PWorldOddPlaces: chance that @world is used where it is legal but unusual: as the
+	// account of a save statement or of a balance() / overdraft() origin
+	PWorldOddPlaces int
 	// PBalanceOrigin: chance (per case, up to 3 times) of a variable initialised by
 	// balance() / overdraft(); such variables are then used as sent amounts and caps
 	PBalanceOrigin int
@@ -72,7 +79,7 @@ func DefaultKnobs() Knobs {
 		DestOnly: []string{"x", "y", "z:1"},
 		PSendAll: 25, PSave: 12, PCall: 8, PKept: 12, PUnbounded: 5, PWorld: 8, PBounded: 18,
 		PAllotSrc: 12, PVarRepr: 22, PInfix: 10, PBig: 6, PNegCap: 12, PNegBal: 12, POrigin: 15,
-		PWorldFallback: 30, PRich: 15,
+		PWorldFallback: 30, PRich: 15, PReuse: 25,
 	}
 }
 
@@ -89,6 +96,13 @@ type TG struct {
 	// UsesOverdraftFn is set when an overdraft() origin was generated
 	UsesOverdraftFn bool
 	BalVars         []BalVar
+	// Declared plain / meta-backed variables, for reuse: a variable used several times is
+	// where aliasing defects (a value modified in place through one use) show
+	Declared []DeclaredVar
+}
+
+type DeclaredVar struct {
+	Name, Type, Text string
 }
 
 // BalVar is a monetary variable whose value comes from balance() / overdraft().
@@ -221,7 +235,39 @@ func (g *TG) declare(typ, text string) string {
 		g.Vars[name] = text
 	}
 	g.Decls = append(g.Decls, d)
+	g.Declared = append(g.Declared, DeclaredVar{Name: name, Type: typ, Text: text})
 	return name
+}
+
+// reuse returns an already declared variable of the given type whose text satisfies ok.
+func (g *TG) reuse(label, typ string, ok func(text string) bool) (DeclaredVar, bool) {
+	if !g.pct(label+".reuse", g.K.PReuse) {
+		return DeclaredVar{}, false
+	}
+	var cands []DeclaredVar
+	for _, d := range g.Declared {
+		if d.Type == typ && ok(d.Text) {
+			cands = append(cands, d)
+		}
+	}
+	if len(cands) == 0 {
+		return DeclaredVar{}, false
+	}
+	return cands[g.n(label+".reuse.i", 0, len(cands)-1)], true
+}
+
+// MonValue chooses a monetary value of the asset together with its spelling: either an
+// already declared monetary variable of that asset (its value is then the amount), or a
+// fresh amount drawn by draw() and spelled by MonExpr.
+func (g *TG) MonValue(label, asset string, allowNegative bool, draw func() *big.Int) (*Expr, *big.Int) {
+	if d, ok := g.reuse(label, "monetary", func(t string) bool {
+		return len(t) > len(asset)+1 && t[:len(asset)+1] == asset+" " && (allowNegative || t[len(asset)+1] != '-')
+	}); ok {
+		n, _ := new(big.Int).SetString(d.Text[len(asset)+1:], 10)
+		return Var(d.Name), n
+	}
+	n := draw()
+	return g.MonExpr(asset, n, 0), n
 }
 
 // ---- typed expressions: the value is chosen by the caller, the spelling is drawn here
@@ -248,6 +294,9 @@ func (g *TG) numAtom(n *big.Int) *Expr {
 }
 
 func (g *TG) AssetExpr(a string) *Expr {
+	if d, ok := g.reuse("asset", "asset", func(t string) bool { return t == a }); ok {
+		return Var(d.Name)
+	}
 	if g.pct("asset.var", g.K.PVarRepr/2) {
 		return Var(g.declare("asset", a))
 	}
@@ -255,6 +304,9 @@ func (g *TG) AssetExpr(a string) *Expr {
 }
 
 func (g *TG) AcctExpr(a string) *Expr {
+	if d, ok := g.reuse("acct", "account", func(t string) bool { return t == a }); ok {
+		return Var(d.Name)
+	}
 	if g.pct("acct.var", g.K.PVarRepr) {
 		return Var(g.declare("account", a))
 	}
@@ -409,8 +461,7 @@ func (g *TG) Src(asset string, depth int, all bool) *Src {
 	case "world":
 		return &Src{Kind: SAcct, Addr: g.AcctExpr("world")}
 	case "bounded":
-		b := g.CapValue("src.bound")
-		bv := g.MonExpr(asset, b, 0)
+		bv, _ := g.MonValue("src.bound", asset, true, func() *big.Int { return g.CapValue("src.bound") })
 		return &Src{Kind: SOver, Addr: g.AcctExpr(pickS(g, "src.acct", g.K.Accounts)), Bound: bv}
 	case "unbounded":
 		return &Src{Kind: SOver, Addr: g.AcctExpr(pickS(g, "src.acct", g.K.Accounts))}
@@ -427,8 +478,8 @@ func (g *TG) Src(asset string, depth int, all bool) *Src {
 				return &Src{Kind: SCapped, Cap: Var(bv.Name), From: g.Src(asset, depth+1, false)}
 			}
 		}
-		c := g.CapValue("src.cap")
-		return &Src{Kind: SCapped, Cap: g.MonExpr(asset, c, 0), From: g.Src(asset, depth+1, false)}
+		cv, _ := g.MonValue("src.cap", asset, true, func() *big.Int { return g.CapValue("src.cap") })
+		return &Src{Kind: SCapped, Cap: cv, From: g.Src(asset, depth+1, false)}
 	case "allot":
 		n := g.n("src.allotw", 1, g.K.MaxWidth)
 		ps := g.Portions(n)
@@ -465,8 +516,8 @@ func (g *TG) Dst(asset string, depth int) *Dst {
 		n := g.n("dst.width", 0, g.K.MaxWidth)
 		d := &Dst{Kind: DInorder}
 		for i := 0; i < n; i++ {
-			cv := g.CapValue("dst.cap")
-			d.Clauses = append(d.Clauses, DstClause{Cap: g.MonExpr(asset, cv, 0), To: g.KOD(asset, depth+1)})
+			cv, _ := g.MonValue("dst.cap", asset, true, func() *big.Int { return g.CapValue("dst.cap") })
+			d.Clauses = append(d.Clauses, DstClause{Cap: cv, To: g.KOD(asset, depth+1)})
 		}
 		r := g.KOD(asset, depth+1)
 		d.Remaining = &r
@@ -488,6 +539,9 @@ func (g *TG) asset() string {
 	if g.K.SameAsset {
 		return g.K.Assets[0]
 	}
+	if g.K.EvenAssets {
+		return pickS(g, "asset.even", g.K.Assets)
+	}
 	// the first assets are favoured so that statements interact
 	c := g.n("asset", 0, 9)
 	if c < 6 || len(g.K.Assets) == 1 {
@@ -506,10 +560,13 @@ func (g *TG) Stmt() *Stmt {
 			st.All = true
 			st.Sent = g.AssetExpr(asset)
 		} else {
-			n := g.Amount("save.amt")
-			st.Sent = g.MonExpr(asset, n, 0)
+			st.Sent, _ = g.MonValue("save.amt", asset, false, func() *big.Int { return g.Amount("save.amt") })
 		}
-		st.SaveFrom = g.AcctExpr(pickS(g, "save.acct", g.K.Accounts))
+		saveAcct := pickS(g, "save.acct", g.K.Accounts)
+		if g.pct("save.world", g.K.PWorldOddPlaces) {
+			saveAcct = "world"
+		}
+		st.SaveFrom = g.AcctExpr(saveAcct)
 		return st
 	case c < g.K.PSave+g.K.PCall:
 		return g.CallStmt()
@@ -528,7 +585,8 @@ func (g *TG) Stmt() *Stmt {
 			src = &Src{Kind: SInorder, Subs: []*Src{src, {Kind: SAcct, Addr: Acct("world")}}}
 		}
 		if sentExpr == nil {
-			sentExpr = g.MonExpr(asset, n, 0)
+			sentExpr, n = g.MonValue("send.amt", asset, false, func() *big.Int { return n })
+			g.note(n)
 		}
 		return &Stmt{Kind: StSend, Sent: sentExpr, Src: src, Dst: g.Dst(asset, 0)}
 	}
@@ -565,6 +623,9 @@ func (g *TG) CallStmt() *Stmt {
 // balanceOrigin adds a variable initialised by balance() or overdraft().
 func (g *TG) balanceOrigin() {
 	acct := pickS(g, "bo.acct", g.K.Accounts)
+	if g.pct("bo.world", g.K.PWorldOddPlaces) {
+		acct = "world"
+	}
 	asset := g.asset()
 	fn := "balance"
 	if g.K.OverdraftFlag && g.pct("bo.od", 40) {
@@ -572,7 +633,7 @@ func (g *TG) balanceOrigin() {
 		g.UsesOverdraftFn = true
 	}
 	cur := new(big.Int)
-	if v, ok := g.Bal[acct][asset]; ok {
+	if v, ok := g.Bal[acct][asset]; ok && acct != "world" {
 		cur.Set(v)
 	}
 	val := new(big.Int).Set(cur)
